@@ -147,7 +147,14 @@ def loadNnf (c : Circuit) (cnf : CNF) (namesOrdered : List (Label × Name × Key
     | .or _ cs =>
       let (S1, i) := ld.store.addDisjNode (cs.map (fun ch => ld.line2node.getD ch none)) none false
       (⟨S1, ld.line2node ++ [some (i : Int)]⟩, seen)
-  let (ld, seen) := c.foldl step (⟨init, []⟩, [])
+  let (ld0, seen) := c.foldl step (⟨init, []⟩, [])
+  -- `if lnum > 0 and last_is_literal: nnf.add_and([line2node[lnum - 1]])` : a circuit whose last line is a literal
+  -- gets an explicit root node (the evaluator takes the last node of the formula as root)
+  let ld : Loaded := match c.getLast? with
+    | some (.lit _) =>
+      let (S1, _) := ld0.store.addConjNode [ld0.line2node.getLast?.getD none] none false
+      ⟨S1, ld0.line2node⟩
+    | _ => ld0
   -- names of literals that do not occur in the file: TRUE stays TRUE, everything else becomes FALSE (None)
   let rest := namesOrdered.filter (fun e => match e.2.2 with
     | some k => !seen.contains k
